@@ -24,7 +24,7 @@ struct Waiter { World* w; int rounds; std::vector<uint64_t> timeouts; photon::th
 static void* waiter_fn(void* a) {
     auto me = (Waiter*)a; auto w = me->w;
     for (int k = 0; k < me->rounds; k++) {
-        if (w->use_spin) w->sl.lock(); else w->m.lock();
+        if (w->use_spin) w->sl.lock(); else while (w->m.lock() != 0) { }      // an interrupted lock() reports -1: try again
         if (w->inside) { w->bad = true; w->badwhy = "two threads hold the lock"; } w->inside++;
         uint64_t tmo = me->timeouts[k]; uint64_t t0 = photon::__update_now();
         w->inside--; w->waiting++;
@@ -53,7 +53,19 @@ static bool history(uint64_t seed, std::string* desc) {
         if (op == 0) { auto t = w.cv.notify_one(); *desc += " n1"; if (t) { w.notified++; if (w.waiting == 0) { w.bad = true; w.badwhy = "notify_one() reports a woken thread although nobody was waiting"; } } }
         else if (op == 1) { int n = w.cv.notify_all(); *desc += " nA"; if (n < 0 || n > w.waiting) { w.bad = true; w.badwhy = "notify_all() reports " + std::to_string(n) + " woken threads with " + std::to_string(w.waiting) + " waiting"; } w.notified += n; }
         else if (op == 2) { auto& k = ws[rnd() % nw]; if (!k.finished && photon::thread_stat(k.th) == photon::states::SLEEPING) { photon::thread_interrupt(k.th, EINTR); *desc += " int"; } }
-        else if (op == 3) photon::thread_usleep(500); else photon::thread_yield();
+        else if (op == 3) photon::thread_usleep(500);
+        else if (op == 4 && !w.use_spin) {
+            // notify while HOLDING the mutex and keep it for a while: the woken waiters block in wait()'s re-lock; deadlines may pass
+            // and interrupts may arrive in that window - wait() must still return 0 (it consumed the notification), with the lock
+            while (w.m.lock() != 0) { } if (w.inside) { w.bad = true; w.badwhy = "two threads hold the lock"; } w.inside++;
+            if (rnd() % 2) { auto t = w.cv.notify_one(); if (t) w.notified++; } else { int n = w.cv.notify_all(); if (n > 0) w.notified += n; }
+            *desc += " Ln";
+            uint64_t hold = 1000 + rnd() % 6000;
+            if (rnd() % 2) { photon::thread_usleep(hold / 2); auto& k = ws[rnd() % nw]; if (!k.finished && photon::thread_stat(k.th) == photon::states::SLEEPING) { photon::thread_interrupt(k.th, EINTR); *desc += "i"; } photon::thread_usleep(hold / 2); }
+            else photon::thread_usleep(hold);
+            w.inside--; w.m.unlock();
+        }
+        else photon::thread_yield();
         if (w.bad) break;
     }
     // release whoever still waits without a timeout
